@@ -210,7 +210,7 @@ class EstimatorMonitor:
         # conservation of proposals: every point the bound handed out either lies in a later bound (rejected) or is used
         # (returned, or swapped for a transfer candidate) - a proposal that stayed in the shell but was dropped would be
         # counted in the denominator of the shell volume and never in the numerator
-        prop = getattr(self.driver.hooks, 'last_proposals', None)
+        prop = getattr(getattr(self, 'hooks', None), 'last_proposals', None)
         if prop is not None and len(prop) == handed:
             stay = np.ones(len(prop), dtype=bool)
             for b in s.bounds[index:][1:]:
